@@ -19,7 +19,7 @@ from .mp import MPBytes, MPTrunc
 def length_of(v):
     if isinstance(v, (bytes, bytearray, str)):
         return len(v)
-    if type(v).__name__ in ("JSText", "AvroHeader", "AvroBlock", "CsvRow"):
+    if type(v).__name__ in ("JSText", "AvroHeader", "AvroBlock", "CsvRow", "MagicSeg"):
         return v.length
     if isinstance(v, (SBytes, MPBytes, MPTrunc)):
         if v.length is None:
@@ -168,7 +168,8 @@ class AbsFile(io.IOBase):
         if "b" not in self.mode:
             return ""
         if self.i < len(self.segs) and getattr(self.segs[self.i][0], "magic", None) is not None:
-            return self.segs[self.i][0].magic  # container formats modelled as one abstract segment expose only their leading magic
+            m_ = self.segs[self.i][0].magic  # container / codec formats modelled as abstract segments expose their leading magic (zero padded)
+            return m_ + b"\x00" * max(0, (n if isinstance(n, int) else 0) - len(m_))
         save_i, save_segs = self.i, list(self.segs)
         try:
             return self.read(n)
@@ -217,7 +218,7 @@ class AbsFile(io.IOBase):
         return False
 
     def __getattr__(self, name):
-        if name.startswith("_") or name in ("name", "preset", "csv_rows", "avro"):
+        if name.startswith("_") or name in ("name", "preset", "csv_rows", "avro", "outer"):
             raise AttributeError(name)
         raise Unsupported(f"file method {name!r} is outside the file model")
 
